@@ -276,6 +276,31 @@ Proof.
 Qed.
 Print Assumptions c07_proto.
 
+(* What must NOT change.  SetErrno touches the error flag and the body only; an encode leaves on
+   the sender's packet a flag that differs from the packet's in the two marks only (and nothing
+   else of the packet is an output of the model's encoder); a Clone() is the same packet value,
+   unbound, and crosses either codec exactly as the packet does. *)
+Theorem c07_frame : forall c thr enc dec e p, 0 <= flg p < 256 ->
+  (cmd (set_errno e p) = cmd p /\ seq (set_errno e p) = seq p /\ typ (set_errno e p) = typ p /\
+   node (set_errno e p) = node p /\ refers (set_errno e p) = refers p /\ endpoint (set_errno e p) = endpoint p /\
+   Z.land (flg (set_errno e p)) (255 - root_PFlagError) = Z.land (flg p) (255 - root_PFlagError)) /\
+  unmark (fst (marshal_body c thr enc p)) = unmark (flg p) /\
+  (wire_v1 c thr enc dec (clone p) = wire_v1 c thr enc dec p /\
+   wire_v2 c thr enc dec (clone p) = wire_v2 c thr enc dec p /\
+   cmd (clone p) = cmd p /\ seq (clone p) = seq p /\ typ (clone p) = typ p /\ flg (clone p) = flg p /\
+   node (clone p) = node p /\ pbody (clone p) = pbody p /\ refers (clone p) = refers p /\ endpoint (clone p) = None).
+Proof.
+  intros c thr enc dec e p Hf. split; [exact (set_errno_frame e p Hf)|].
+  split; [exact (marshal_flag_frame c thr enc p Hf)|exact (clone_wire c thr enc dec p)].
+Qed.
+Print Assumptions c07_frame.
+
+Example c07_frame_example :
+  let p := mkPkt 1001 7 2 163 65537 (BStr [104; 105]) [5; 6] (Some 1) in
+  flg (set_errno 8 p) = 179 /\ fst (marshal_body tag_coders 1 true p) = 163 /\
+  fst (marshal_body tag_coders 4096 false p) = 160 /\ node (clone p) = 65537 /\ endpoint (clone p) = None.
+Proof. cbv zeta. repeat split; vm_compute; reflexivity. Qed.
+
 (* non-vacuity: the coders the correspondence check runs the model with satisfy coders_ok, a flag value with both marks preset and other bits set is in range, and
    an error code really crosses both model codecs with compression and cipher switched on *)
 Example c07_example :
